@@ -213,7 +213,11 @@ impl<T: Write + Seek> ShapeWriter<T> {
 
         self.shp_dest.seek(SeekFrom::Start(0))?;
         self.header.write_to(&mut self.shp_dest)?;
-        self.shp_dest.seek(SeekFrom::End(0))?;
+        // Go back to where the next record goes. That is right behind the last
+        // record, which is not necessarily the end of the destination
+        // (it may hold older, longer content)
+        self.shp_dest
+            .seek(SeekFrom::Start(self.header.file_length as u64 * 2))?;
         self.shp_dest.flush()?;
 
         if let Some(shx_dest) = &mut self.shx_dest {
@@ -222,7 +226,7 @@ impl<T: Write + Seek> ShapeWriter<T> {
                 + ((self.rec_num - 1) as i32 * 2 * size_of::<i32>() as i32 / 2);
             shx_dest.seek(SeekFrom::Start(0))?;
             shx_header.write_to(shx_dest)?;
-            shx_dest.seek(SeekFrom::End(0))?;
+            shx_dest.seek(SeekFrom::Start(shx_header.file_length as u64 * 2))?;
             shx_dest.flush()?;
         }
         self.dirty = false;
